@@ -54,6 +54,9 @@ static int is_v4_form(const struct in6_addr *a)
 static void vp_addr6(struct in6_addr *a)
 {
 	vp_bytes(a->s6_addr, 16);
+#ifdef VP_ZERO_FROM   /* reduced domain for the quick tier: words VP_ZERO_FROM..VP_ZERO_TO are zero */
+	{ int k; for (k = 2 * VP_ZERO_FROM; k < 2 * (VP_ZERO_TO + 1); k++) a->s6_addr[k] = 0; }
+#endif
 #ifdef VP_V4FORM
 	__CPROVER_assume(is_v4_form(a));
 #else
